@@ -309,6 +309,8 @@ def run_property(prop, tier, seed, args):
             if name_ in present_ or name_ in extra_names or "::exc.undeclared" in name_ or name_.endswith("::cover.normal_return_reachable"):
                 continue
             undecided.append((label_, name_ + " (proved at baseline, not generated on this tree: the clause no longer attaches to the code)"))
+    extra.extend(enum_faithfulness(sorted(a for a in assumptions if a.startswith("enum:"))))
+    assumptions = {a for a in assumptions if not a.startswith("enum:")}
     for e in extra:
         ob_total += 1
         backends[e.get("backend", "?")] = backends.get(e.get("backend", "?"), 0) + 1
@@ -397,6 +399,57 @@ def _claim(prop):
         return CLAIMS.get(prop, {})
     except Exception:
         return {}
+
+
+def enum_faithfulness(names):
+    """The engine models `Cls(v)` for an integer enum as (Cls, v): the member or pseudo-member *keeps the value it was
+    built from*.  That is a fact about the live class (its members and its `_missing_`), so it is an obligation, checked
+    here for every enum class some path constructed from a symbolic value: exhaustively over the class's whole range
+    when that has at most 2**16 values, else over all defined members, the range boundaries and 4096 fixed
+    pseudo-random values (stated in the obligation's detail)."""
+    import random
+
+    from .values import enum_accepts_undefined, enum_range
+
+    out = []
+    for a in names:
+        _tag, mod, qn = a.split(":", 2)
+        t0 = time.time()
+        try:
+            cls = importlib.import_module(mod)
+            for part in qn.split("."):
+                cls = getattr(cls, part)
+        except Exception as e:
+            out.append({"name": f"{mod}.{qn}::enum.construction_keeps_the_value", "verdict": "error", "detail": repr(e)})
+            continue
+        rng = enum_range(cls)
+        members = sorted({int(m) for m in cls.__members__.values()})
+        if rng and rng[1] - rng[0] < (1 << 16):
+            values, how = range(rng[0], rng[1] + 1), f"exhaustive over {rng[0]}..{rng[1]}"
+        elif rng:
+            r_ = random.Random(20260929)
+            values = sorted(set(members) | {rng[0], rng[0] + 1, rng[1] - 1, rng[1]} | {r_.randint(rng[0], rng[1]) for _ in range(4096)})
+            how = f"defined members, range boundaries and 4096 fixed pseudo-random values of {rng[0]}..{rng[1]} (sampled, not exhaustive)"
+        else:
+            values, how = members, "defined members"
+        undefined_ok = enum_accepts_undefined(cls)
+        bad = []
+        for v in values:
+            if not undefined_ok and v not in members:
+                continue
+            try:
+                m = cls(v)
+                if int(m) != v or type(m) is not cls:
+                    bad.append((v, repr(m)))
+            except Exception as e:  # the model says the value is accepted
+                bad.append((v, repr(e)))
+            if len(bad) >= 3:
+                break
+        out.append({"name": f"{mod}.{qn}::enum.construction_keeps_the_value", "verdict": "proved" if not bad else "refuted",
+                    "backend": "live-table", "t": round(time.time() - t0, 3),
+                    "detail": f"{qn}(v) is a (pseudo-)member of {qn} with value v: {how}",
+                    "witness": {"class": f"{mod}.{qn}", "value -> constructed": bad} if bad else None})
+    return out
 
 
 def replay_path(prop, obligation):
